@@ -31,6 +31,9 @@ type ConcCase struct {
 	CheckLin      bool // per-address porcupine check
 	CheckHandles  bool // handle records agree with blocks at quiescent points (untainted handles)
 	LinTimeout    time.Duration
+
+	template    *World // the prepared cluster, forked for every run
+	templateErr error
 }
 
 // RunPlan selects the schedule and the faults of one run of a ConcCase.
@@ -176,6 +179,14 @@ func (cc *ConcCase) script(w *World, st *clientState) Script {
 					} else {
 						ro = RelOpt{Addr: w.Universe[r.Intn(len(w.Universe))]}
 					}
+					dup := false
+					for _, prev := range s.Rel {
+						// the block code keeps one option per address (last wins): never name an address twice
+						dup = dup || prev.Addr == ro.Addr
+					}
+					if dup {
+						continue
+					}
 					s.Rel = append(s.Rel, ro)
 				}
 				s.Kind = KReleaseIPs
@@ -226,11 +237,14 @@ func (cc *ConcCase) script(w *World, st *clientState) Script {
 // Run executes the case once under plan and judges it.
 func (cc *ConcCase) Run(plan RunPlan) *RunOutcome {
 	out := &RunOutcome{Plan: plan, ErrOps: map[string]int{}}
-	w, err := NewWorld(cc.Spec)
-	if err != nil {
-		out.SetupErr = err
+	if cc.template == nil && cc.templateErr == nil {
+		cc.template, cc.templateErr = NewWorld(cc.Spec)
+	}
+	if cc.templateErr != nil {
+		out.SetupErr = cc.templateErr
 		return out
 	}
+	w := cc.template.Fork()
 	defer w.Store.Shutdown()
 	out.World = w
 	out.Tracker = NewTracker(w, cc.Tracker)
@@ -288,10 +302,26 @@ func (cc *ConcCase) Run(plan RunPlan) *RunOutcome {
 				// Sub-classify by a recognisable cause so that a listed finding does not hide others.
 				key, why := "handle-record-disagrees-with-blocks", ""
 				for _, op := range w.Ops() {
-					if op.Step.Kind == KAssignIP && sanitizeHandle(op.Step.Handle) == m.Handle && op.Conflicts > 0 && !op.Open() {
+					if sanitizeHandle(op.Step.Handle) != m.Handle || op.Open() {
+						continue
+					}
+					got := 0
+					for _, h := range op.Acquired {
+						if h == m.Handle {
+							got++
+						}
+					}
+					if op.HandleDelta[m.Handle] <= got {
+						continue
+					}
+					if op.Step.Kind == KAssignIP && op.Conflicts > 0 {
 						key = "handle-record-overcounts-after-assignip-cas-retry"
-						why = fmt.Sprintf("; op#%d AssignIP(%s, handle %q) saw %d datastore conflict(s) and retried", op.ID, op.Step.IP, op.Step.Handle, op.Conflicts)
+						why = fmt.Sprintf("; op#%d AssignIP(%s, handle %q) saw %d datastore conflict(s), retried, and left the handle record %d higher while it allocated %d address(es)", op.ID, op.Step.IP, op.Step.Handle, op.Conflicts, op.HandleDelta[m.Handle], got)
 						break
+					}
+					if op.Step.Kind == KAutoAssign {
+						key = "handle-record-overcounts-after-partial-block-autoassign"
+						why = fmt.Sprintf("; op#%d AutoAssign(handle %q, %d v4 + %d v6) raised the handle record by %d while it allocated %d address(es) %v", op.ID, op.Step.Handle, op.Step.Num4, op.Step.Num6, op.HandleDelta[m.Handle], got, op.IPs)
 					}
 				}
 				out.Violations = append(out.Violations, Violation{Key: key,
